@@ -265,7 +265,7 @@ def _settings_enumerated():
 
 
 def shards(tier):
-    n = 220 if tier == "quick" else 5000
+    n = 220 if tier == "quick" else 15000
     out = [Shard(f"gen-{i}", lambda: cases(), n, subject="hexital", cost=2) for i in range(15)]
     out.append(Shard("enum-settings", cases=_settings_enumerated, subject="hexital", exhaustive=True))
     return out
